@@ -15,7 +15,7 @@ NOT decided: that reverse / sort / merge produce the right order (link-shape rea
 """
 from .. import listrules
 from ..facts import Prover, strip_bitcasts
-from ..ir import const_int, resolve_addr
+from ..ir import const_int, resolve_addr, unit_step
 from .util import header_functions, floc
 
 SL = 'cstl_slist'
@@ -91,7 +91,7 @@ def run(m, rep, tier):
             v = strip_bitcasts(f, s.o[0])
             a = resolve_addr(f, v)
             vi = f.get(v) if isinstance(v, str) else None
-            site = '%s:t@%d' % (f.name, s.line)
+            site = '%s:t:=%s' % (f.name, f.vname(v) if isinstance(v, str) else 'expr')
             why = None
             if a.steps in (('h',),) or (a.steps == () and a.coff == 0 and isinstance(a.root, str) and (a.root.startswith('$') or (f.get(a.root) is not None and f.get(a.root).op == 'alloca'))
                                          and vi is not None and vi.op in ('getelementptr', 'bitcast')):
@@ -174,10 +174,8 @@ def run(m, rep, tier):
     for f in fns:
         if listrules.count_once(m, f, n5, SL, 'count'):
             adj.append(f)
-    plus = [f for f in adj if any(s.op == 'store' and (f.get(s.o[0]) is not None) and f.get(s.o[0]).op == 'add' and const_int(f.get(s.o[0]).o[1]) == 1
-                                  and resolve_addr(f, s.o[1]).fsteps[-1:] == ((SL, 'count'),) for s in f.all_insts())]
-    minus = [f for f in adj if any(s.op == 'store' and (f.get(s.o[0]) is not None) and f.get(s.o[0]).op == 'add' and const_int(f.get(s.o[0]).o[1]) == (1 << 64) - 1
-                                   and resolve_addr(f, s.o[1]).fsteps[-1:] == ((SL, 'count'),) for s in f.all_insts())]
+    plus = [f for f in adj if any(s.op == 'store' and unit_step(f, s.o[0])[1] == 1 and resolve_addr(f, s.o[1]).fsteps[-1:] == ((SL, 'count'),) for s in f.all_insts())]
+    minus = [f for f in adj if any(s.op == 'store' and unit_step(f, s.o[0])[1] == -1 and resolve_addr(f, s.o[1]).fsteps[-1:] == ((SL, 'count'),) for s in f.all_insts())]
     if not plus:
         n5.violation('slist:insertion', 'no function of the list increments the element count although elements can be inserted', 'src/slist.c', {})
     if not minus:
